@@ -95,6 +95,10 @@ def check_batch_tasks(ctx):
     for need in ("n_tasks", "n_batches", "arr", "start_idx"):
         if need not in params:
             raise AnalysisIncomplete(R, "batch_tasks", "parameter %s missing" % need)
+    ps_ = set(params)
+    ws_ = A.storage_writes(fn, lambda e: isinstance(e, ast.Name) and e.id in ps_)
+    ctx.check(R, ws_[0][0] if ws_ else fn, "batch_tasks leaves its arguments untouched (the cursor is re-bound, never updated in place)", not ws_,
+              (ws_[0][1] if ws_ else "") + ": for an array-valued start index the task ids stored earlier, and the caller's own object, change with it", key="args-inplace", nontrivial=False)
     flow = A.Flow(fn)
     loops = [n for n in A.walk_local(fn) if isinstance(n, ast.For)]
     if len(loops) != 1:
